@@ -7,5 +7,5 @@ git -C /repo worktree add -q --detach $T HEAD || exit 2
 trap 'git -C /repo worktree remove --force $T' EXIT
 git -C $T -c user.email=x -c user.name=x revert --no-commit $C >/dev/null 2>&1 || { echo "REVERT FAILED"; exit 3; }
 git -C $T diff --cached --stat | tail -1
-cd /verif && VERIF_REPO=$T VERIF_WORKTAG=.rev$$ timeout ${MUT_TIMEOUT:-1200} ./check $ID $TIER 2>&1 | grep -v "^KNOWN-FINDING" | cut -c1-400 | head -${LINES_MAX:-12}
+cd /verif && VERIF_EVIDENCE_DIR=/tmp/evscratch VERIF_REPO=$T VERIF_WORKTAG=.rev$$ timeout ${MUT_TIMEOUT:-1200} ./check $ID $TIER 2>&1 | grep -v "^KNOWN-FINDING" | cut -c1-400 | head -${LINES_MAX:-12}
 echo "rc=${PIPESTATUS[0]}"
